@@ -225,6 +225,7 @@ class Model:
         self.notes = []
         self.flags_assumed = {}
         self._load_sources()
+        self._canonicalise_roles()
         for name in sorted(self.modules):
             if name != ABC_MOD:
                 self._import_module(self.modules[name])
@@ -258,6 +259,54 @@ class Model:
             self.modules[ABC_MOD] = Module(ABC_MOD, path, f.read(), False)
         self.abc_path = path
         self._import_module(self.modules[ABC_MOD])
+
+    # ------------------------------------------------------------ role names
+    # Private class attributes the rules refer to by name, identified by their ROLE in the public API so that a
+    # consistent rename in the library does not move them out of view: the attribute a public getter returns.
+    ROLE_GETTERS = {"get_current_buffer_size": "_CURRENT_BUFFER_SIZE", "get_buffer_capacity": "_BUFFER_CAPACITY"}
+
+    def _canonicalise_roles(self):
+        self.role_alias = {}
+        for name, mod in self.modules.items():
+            if name == ABC_MOD:
+                continue
+            for n in ast.walk(mod.tree):
+                if isinstance(n, ast.FunctionDef) and n.name in self.ROLE_GETTERS:
+                    rets = [r for r in ast.walk(n) if isinstance(r, ast.Return) and r.value is not None]
+                    if len(rets) == 1 and isinstance(rets[0].value, ast.Attribute) and isinstance(rets[0].value.value, ast.Name):
+                        actual = rets[0].value.attr
+                        canon = self.ROLE_GETTERS[n.name]
+                        if actual != canon:
+                            self.role_alias[actual] = canon
+        # the method that creates a buffer entry (`..._buffer[key] = {...}`), whatever it is called
+        creators = set()
+        for name, mod in self.modules.items():
+            if name == ABC_MOD:
+                continue
+            for n in ast.walk(mod.tree):
+                if isinstance(n, ast.FunctionDef):
+                    for st in ast.walk(n):
+                        if (isinstance(st, ast.Assign) and isinstance(st.value, ast.Dict) and len(st.targets) == 1 and isinstance(st.targets[0], ast.Subscript)
+                                and isinstance(st.targets[0].value, ast.Attribute) and st.targets[0].value.attr == "_buffer"):
+                            creators.add(n.name)
+        if len(creators) == 1:
+            (actual,) = creators
+            if actual != "_initialize_data_in_buffer":
+                self.role_alias[actual] = "_initialize_data_in_buffer"
+        if not self.role_alias:
+            return
+        for name, mod in self.modules.items():
+            if name == ABC_MOD:
+                continue
+            for n in ast.walk(mod.tree):
+                if isinstance(n, ast.Attribute) and n.attr in self.role_alias:
+                    n.attr = self.role_alias[n.attr]
+                elif isinstance(n, ast.Name) and n.id in self.role_alias:
+                    n.id = self.role_alias[n.id]
+                elif isinstance(n, ast.FunctionDef) and n.name in self.role_alias:
+                    n.name = self.role_alias[n.name]
+        for a, c in self.role_alias.items():
+            self.notes.append(f"role alias: `{a}` is analysed under its canonical name `{c}` (identified by its role, not by its name)")
 
     # ------------------------------------------------------------- imports
     def _abs_module(self, module, level, modname):
